@@ -4,7 +4,7 @@ from common import *
 import pipe, gens
 
 RULE = ("the real Balancer (n_jobs=1, default threshold) on corpus reactions (quick: 300 sampled; thorough: the whole validation set) "
-        "(MCS-solved ones re-run with the score forced to 0.0 = the default threshold boundary, and to 1.0) and on generated reactions (hand-written stage-targeted cases, curated reactions with molecules dropped/inserted, random "
+        "(MCS-solved ones re-run with the score forced to 0.0 = the default threshold boundary, and to 1.0; solvable ones re-run with the carbon count of one of their molecules shifted, so that the carbon label and the formula comparison disagree) and on generated reactions (hand-written stage-targeted cases, curated reactions with molecules dropped/inserted, random "
         "small-molecule reactions), in batches; every recorded batch is replayed through Model/Pipeline.run inside Coq (all public "
         "columns of all rows + the seven statistics) and every row is checked by RDKit-only oracles.  Non-trivial: a row that some "
         "stage edited (water insertion, completion, MCS append) before it was declined, or a declined carbon-deficit row, or a solved "
@@ -33,14 +33,17 @@ def hypotheses(ctx, b):
     # H2 is evaluated inside Coq on the model's own water step with the recorded composition tables (see run())
 
 
-def oracle(ctx, b):
-    hypotheses(ctx, b)
+def oracle(ctx, b, forced_carbon=False):
+    if not forced_carbon:
+        hypotheses(ctx, b)
     edited = {k for k, v in b["tables"]["impute"] if v[0] == "ok"}
     for inp, r in zip(b["inputs"], b["rows"]) if len(b["inputs"]) == len(b["rows"]) else []:
         ctx.evaluations += 1
         case = {"input": inp, "row": r}
         if b.get("force_conf") is not None:
             case["forced_confidence"] = b["force_conf"]
+        if b.get("force_carbon"):
+            case["forced_carbon"] = b["force_carbon"]
         if not r["solved"]:
             if r["reaction"] != r["input_reaction"]:
                 ctx.fail("declined-row-altered", case, {})
@@ -55,7 +58,7 @@ def oracle(ctx, b):
                 ctx.fail("solved-with-issue", case, {})
             ctx.nontrivial.add(inp)
         # carbon deficit => declined
-        if inp.count(">>") == 1:
+        if inp.count(">>") == 1 and not forced_carbon:
             l, p = inp.split(">>")
             cl, cp = pipe.carbons(l), pipe.carbons(p)
             if cl is not None and cp is not None and cp > cl:
@@ -89,17 +92,42 @@ def forced_run(ctx, bs):
     return val
 
 
+def forced_carbon_run(ctx, bs):
+    """the carbon counter's answer space: solvable corpus reactions re-run with the count of ONE of their molecules shifted by one
+    (reactant side up: the label says 'products' while the formula comparison may say Balance after completion; product side up:
+    the label says 'reactants').  The theorems hold for every oracle answer, so the property must hold on these runs too."""
+    rng = random.Random("fc|%s|%s" % (ctx.seed, ctx.tier))
+    cand = [inp for b in bs if len(b["rows"]) == len(b["inputs"]) for inp, r in zip(b["inputs"], b["rows"])
+            if r["solved_by"] in ("rule-based", "mcs-based", "input-balanced") and inp.count(">>") == 1]
+    cand = rng.sample(cand, min(len(cand), 16 if ctx.quick() else 200))
+    def compute():
+        out = []
+        for inp in cand:
+            l, p = pipe.run_batch([inp])["rows"][0]["input_reaction"].split(">>") if False else inp.split(">>")
+            side = rng.choice([l, p])
+            tok = rng.choice(side.split("."))
+            out.append(pipe.run_batch([inp], force_carbon={tok: rng.choice([1, 1, 2])}))
+        return out
+    val, _ = pipe.cached("c03fcarbon_%s_%d" % (ctx.tier, ctx.seed), compute)
+    return val
+
+
 def run(ctx):
     from rdkit import RDLogger
     RDLogger.DisableLog("rdApp.*")
     bs = pipe.corpus_run(ctx)
     gs = gen_run(ctx)
+    fc = forced_carbon_run(ctx, bs)
+    ctx.count("inputs", "forced_carbon_rows", len(fc))
+    for b in fc:
+        if len(b["rows"]) == len(b["inputs"]):
+            oracle(ctx, b, forced_carbon=True)
     fs = forced_run(ctx, bs)
     ctx.count("inputs", "forced_confidence_rows", sum(len(b["inputs"]) for b in fs))
     for b in fs:
         if len(b["rows"]) == len(b["inputs"]):
             oracle(ctx, b)
-    gs = gs + fs
+    gs = gs + fs + fc
     ctx.count("inputs", "corpus_rows", sum(len(b["inputs"]) for b in bs))
     ctx.count("inputs", "generated_rows", sum(len(b["inputs"]) for b in gs))
     for b in bs + gs:
@@ -207,7 +235,7 @@ def replay(ctx, rep):
     inp = case["input"] if isinstance(case, dict) and "input" in case else None
     if inp is None:
         print(json.dumps(rep, indent=1)[:3000]); return 0
-    b = pipe.run_batch([inp], force_conf=case.get("forced_confidence"))
+    b = pipe.run_batch([inp], force_conf=case.get("forced_confidence"), force_carbon=case.get("forced_carbon"))
     print(json.dumps(b["rows"], indent=1))
-    n = len(ctx.failures); oracle(ctx, b)
+    n = len(ctx.failures); oracle(ctx, b, forced_carbon=bool(case.get("forced_carbon")))
     return 1 if len(ctx.failures) > n else 0
